@@ -232,6 +232,21 @@ func checkDeferStream(r *core.Run, prop string, x *fedExec, ctxMsg string, fault
 					r.Fail(prop, "reconstruction", "pending-path-includes-first-item-subpath", "frame %d: incremental data for id %s cannot be applied at %v (%v); the payloads do reconstruct the non-deferred data when items with a subPath are read relative to a prefix of the announced pending path\n%s%s", i, id, full, err, dump(), ctxMsg)
 					return recon, false
 				}
+				if altWant != "" && strings.Contains(err.Error(), "targets a null value") && strings.Count(ctxMsg, "@defer") >= 2 {
+					// known finding deferred-fetches-missing, nested flavour: an outer fragment delivered null
+					// for a field that has a value without @defer (its fetch is missing), and the payload of
+					// a fragment nested below that field then has nothing to attach to. Everything delivered
+					// so far must be the twin's data with values nulled or still absent, and the twin must
+					// have an object at the target.
+					var rc, tw any
+					_ = json.Unmarshal([]byte(canonValue(recon)), &rc)
+					_ = json.Unmarshal([]byte(altWant), &tw)
+					at, _ := valueAt(tw, full)
+					if _, isObj := at.(map[string]any); isObj && isNullingOrMissing(rc, tw) {
+						r.Fail(prop, "stream", "deferred-fetches-missing", "deferred fields are delivered as null although no subgraph failed and the same operation without @defer returns values; frame %d then delivers the payload of a nested fragment for id %s at %v, below one of those nulls: fetches of the deferred group are missing\nwithout defer: %s\n%s%s", i, id, full, altWant, dump(), ctxMsg)
+						return recon, false
+					}
+				}
 				r.Fail(prop, "reconstruction", "unmergeable", "frame %d: incremental data for id %s cannot be applied at %v: %v\n%s%s", i, id, full, err, dump(), ctxMsg)
 				return recon, false
 			}
